@@ -18,7 +18,7 @@ func init() {
 			"C02.4 Push inserts the element it was given, deletes only the iterator's last (farthest) element and only while Len > k, and returns only under ¬(Len > k); Farthest returns that same last element; Full ⇔ Len ≥ k; " +
 			"C02.5 closest, unqueried, queried and outstanding are only touched with Operation.mu held; " +
 			"C02.8 on every path of the query goroutine from the return of DoQuery to its end, a result with ResponseFrom ≠ nil is handed to the insertion routine (no early exit on cancellation, stop or error in between); C02.9 the result set never merges two different responders (order totality, C18.3); " +
-			"C02.6/C02.7 a response is in the result set before its query stops counting as in flight, and 'stopped' is signalled only after the in-flight count reached zero, so the set read after Stopped is final. C02.13 a contact is skipped as already asked only when that very address was asked: full-address key, one encoding, grow-only test-and-set (shared with C04.3).",
+			"C02.6/C02.7 a response is in the result set before its query stops counting as in flight, and 'stopped' is signalled only after the in-flight count reached zero, so the set read after Stopped is final. C02.13 a contact is skipped as already asked only when that very address was asked: full-address key, one encoding, grow-only test-and-set (shared with C04.3). C02.14 = C03.11 (no reported contact is lost between the reply and the frontier).",
 		NotDecided: "that the retained elements are the K nearest (needs the metric laws of C18 and the sorted-map semantics of the immutable library), exactness on ideal networks, duplicate-ID behaviour, haveQuery's distance arithmetic.",
 		Assume: []string{
 			"github.com/benbjohnson/immutable SortedMap: Set inserts/replaces, Delete removes exactly the key, Iterator().Last() positions on the greatest key under the comparer",
@@ -37,6 +37,7 @@ func init() {
 			{ID: "C02.11", Doc: "the lookup keeps asking while a closer candidate may exist: the stall predicate (shared with C03.5)", Floor: 5, Run: c03r5},
 			{ID: "C02.12", Doc: "no learned, filter-passing contact is kept from being asked: frontier refusals and removals enumerated (shared with C03.10)", Floor: 3, Run: c03r10},
 			{ID: "C02.13", Doc: "a contact is skipped as already asked only when that very address (IP and port) was asked: the queried set is keyed by the full address string under one encoding, and only grows by test-and-set (shared with C04.3)", Floor: 3, Run: c04r3},
+			{ID: "C02.14", Doc: "no reported contact is lost between the reply and the frontier (shared with C03.11): a dropped contact is never asked, so the result need not be the K closest", Floor: 5, Run: c03r11},
 			{ID: "C02.6", Doc: "a response is registered in the result set before its query stops counting as in flight (shared with C03.2)", Floor: 5, Run: c03r2},
 		},
 	})
